@@ -1004,6 +1004,11 @@ class Index(IndexBase):
             if is_bool_array:
                 return result # return position as array
 
+            if key is None or (isinstance(key, INT_TYPES)
+                    and not 0 <= key < len(self._positions)):
+                # positional indexing accepts these (None adds an axis, negative integers count from the end) but they are not labels
+                raise KeyError(key)
+
             if isinstance(key, slice):
                 if key == NULL_SLICE:
                     return slice(0, self.__len__())
